@@ -22,7 +22,8 @@ RULE = ('no big-endian host, cross compiler or emulator exists in this sandbox, 
         'immediates unchanged. Non-trivial = history with a 16/32/64-bit store followed by a narrower or unaligned load of the '
         'same bytes, an RMW/cmpxchg narrower than 64 bits, a float access, or a float immediate whose byte-reversal differs from '
         'itself; distinct by (module, history, byte order).')
-ASSUME = ['compiler/ABI effects of a real big-endian target are out of reach; UBSan alignment checks are off for the forced '
+ASSUME = ['contended big-endian read-modify-writes are sampled by stress runs with real threads (C16 stress modes on the forced big-endian builds), not enumerated',
+          'compiler/ABI effects of a real big-endian target are out of reach; UBSan alignment checks are off for the forced '
           'builds (the big-endian paths dereference cast pointers)']
 
 BE_CCS = ['gcc-O1-be', 'clang-O2-be', 'gcc-O0-be', 'clang-O0-be']
